@@ -156,6 +156,25 @@ fn main() {
             );
             format!("{} {}", run_one(&direct, f[1], &args), run_one(&chain, f[1], &args))
         }
+        // call HISTORY: CH <env> <args> <earlier lines>: the six positions (no stored-argument alias), each after the earlier
+        // lines in the SAME run; the capture counter and the first-error mark are reset before the call under test
+        "CH" => {
+            let args = dec_list(f[2]);
+            let pre = dec_str(f[3]);
+            let refs: Vec<String> = (0..args.len()).map(|i| format!(" ${{v{}}}", i)).collect();
+            let a = refs.join("");
+            let reset = "__cap_n = set 0\n__first_err = set\n";
+            let scripts = vec![
+                format!("{}{}capture{}\n", pre, reset, a),
+                format!("{}{}if capture{}\nend\n", pre, reset, a),
+                format!("{}{}if false\nelseif capture{}\nend\n", pre, reset, a),
+                format!("{}{}while capture{}\nend\n", pre, reset, a),
+                format!("{}{}r = not capture{}\n", pre, reset, a),
+                format!("{}{}alias cap9 capture\ncap9{}\n", pre, reset, a),
+            ];
+            let out: Vec<String> = scripts.iter().map(|s| run_one(s, f[1], &args)).collect();
+            out.join(" ")
+        }
         "P" => {
             let args = dec_list(f[2]);
             let refs: Vec<String> = (0..args.len()).map(|i| format!(" ${{v{}}}", i)).collect();
